@@ -7,14 +7,3 @@ NOTES = ("All checks are generated-input searches against explicit oracles (prop
 ENGINES = [
     dict(name="rapidcheck", path="fw/vh.h", serves_properties=["C19"], kind_free_text="property-based testing (generators + integrated shrinking), one process per worker, Case = plain serialisable data"),
 ]
-META = {}
-META["C19"] = dict(
-    engine="rapidcheck",
-    technique="property-based testing: generated add/fill/reset/embed histories vs. a byte-image reference model",
-    level_text=("Exploration: tens of thousands (quick) to millions (thorough) of generated constant-pool histories are compared step by step "
-                "with an explicit model (alignment, dedup, stability of earlier offsets, byte-exact fill, zero gaps, size/alignment cover, "
-                "invalid sizes rejected without state change, embed_const_pool image and label). Not a proof: absence of failures in the "
-                "explored histories."),
-    level_note="Trusts the harness model (~150 lines) and ASan/UBSan; data alphabet is small by design to force sharing and gap reuse.",
-    design_ref="DESIGN.md section 4, C19",
-)
